@@ -81,7 +81,8 @@ def rand_ops(rng, tier, nmax=14):
     tids = [rng.choice(TIDS[:4]) for _ in range(2)] + [rng.choice(TIDS)]
     for _ in range(n):
         if rng.chance(1, 9):
-            size = rng.choice([1, 2, 3, 4, 5, 64, 127, 128, 129, 4096, 65536, 0x7FFFFFFF, rng.range(1, 300), rng.range(1, 70000)])
+            size = rng.choice([1, 2, 3, 4, 5, 64, 127, 128, 129, 4096, 65536, 0x7FFFFFFF, rng.range(1, 300), rng.range(1, 70000),
+                               16777215, 16777216, 16777217, 0x1000080, 0x2000000, 0x7F000000, rng.range(1 << 24, (1 << 31) - 1)])
             if rng.chance(1, 25):
                 size = rng.choice([0, 0x80000000, 0xFFFFFFFF])      # refused
             ops.append("c:%d:%d" % (size, rng.choice([0, 0, rng.below(M32)])))
@@ -293,6 +294,8 @@ HAND = [
     "chunk rt r7 - m:4294967290:9:1:00:r300.1 m:5:9:1:00:r300.2 m:20:9:1:00:r300.3",
     "chunk rt w 1 m:10:9:1:01:r10.1 m:20:8:1:00:r10.2 m:30:9:1:00:r10.3",                        # drop on csid 4, other csid in between
     "chunk rt w 10 m:10:9:1:01:r10.1 c:77:0 m:30:9:1:01:r10.3 m:50:9:1:00:r10.3",
+    "chunk rt w - c:16777216:0 m:1:9:1:00:r300.7 m:2:9:1:00:r300.8",                             # chunk sizes at and above 2^24
+    "chunk rt r5 - c:16777344:0 m:1:9:1:00:r300.7 c:2130706432:5 m:2:9:1:00:r300.8",
 ]
 
 
